@@ -90,6 +90,15 @@ func (g *GaussianSampler) read(pol Poly, f func(a, b, c uint64) uint64) {
 
 	coeffs := pol.Coeffs
 
+	// mform switches a sampled value (not the previous content of pol, see ReadAndAdd)
+	// to the Montgomery domain if the sampler is a Montgomery sampler.
+	mform := func(v uint64, j int) uint64 {
+		if g.montgomery {
+			return MForm(v, r.SubRings[j].Modulus, r.SubRings[j].BRedConstant)
+		}
+		return v
+	}
+
 	// If the standard deviation is greater than float64 precision
 	// and the bound is greater than uint64, we switch to an approximation
 	// using arbitrary precision.
@@ -148,7 +157,7 @@ func (g *GaussianSampler) read(pol Poly, f func(a, b, c uint64) uint64) {
 			}
 
 			for j, qi := range moduli {
-				coeffs[j][i] = f(coeffs[j][i], coeff.Mod(normInt, Qi[j]).Uint64(), qi)
+				coeffs[j][i] = f(coeffs[j][i], mform(coeff.Mod(normInt, Qi[j]).Uint64(), j), qi)
 			}
 		}
 
@@ -173,13 +182,9 @@ func (g *GaussianSampler) read(pol Poly, f func(a, b, c uint64) uint64) {
 				if c >= qi {
 					c %= qi
 				}
-				coeffs[j][i] = f(coeffs[j][i], (c*sign)|(qi-c)*(sign^1), qi)
+				coeffs[j][i] = f(coeffs[j][i], mform((c*sign)|(qi-c)*(sign^1), j), qi)
 			}
 		}
-	}
-
-	if g.montgomery {
-		g.baseRing.MForm(pol, pol)
 	}
 }
 
